@@ -98,6 +98,8 @@ package sonic
 //@   // the count reported is the progress made; success of ReadAll means the whole buffer
 //@   assert call cb: old(readSoFar) <= arg1 && arg1 <= len(b) && (arg0 == nil && readAll ==> arg1 == len(b)) && (arg0 == nil && !readAll ==> arg1 > old(readSoFar))
 //@   remember after call file).Read: moved = result1 == nil
+//@   remember after call file).Read: kn := result0
+//@   assert call cb: [C02,C19 exact-count] arg1 == old(readSoFar) + kn
 //@   // success is reported only if the transfer attempted now succeeded
 //@   assert call cb: [C02,C19 no-swallowed-error] arg0 == nil ==> moved
 //@   remember after call file).Read: failed = result1 != nil && result1 != sonicerrors.ErrWouldBlock
@@ -108,6 +110,7 @@ package sonic
 //@           readSoFar <= f.readReactor.readSoFar && f.readReactor.readSoFar <= len(b) &&
 //@           f.readReactor.b == b && f.readReactor.readAll == readAll
 //@   ensures [C02,C19 work-left] invoked(cb) == 0 && old(readSoFar) < len(b) ==> f.readReactor.readSoFar < len(b)
+//@   ensures [C02,C19 progress-recorded] invoked(cb) == 0 ==> f.readReactor.readSoFar == old(readSoFar) + kn
 //@   ensures [C02,C19 errors-reported] failed ==> invoked(cb) == 1
 //@   ensures [depth] f.ioc.Dispatched == old(f.ioc.Dispatched)
 
@@ -173,6 +176,10 @@ package sonic
 //@   // the count reported is the progress made; success of WriteAll means the whole buffer
 //@   assert call cb: old(wroteSoFar) <= arg1 && arg1 <= len(b) && (arg0 == nil && writeAll ==> arg1 == len(b)) && (arg0 == nil && !writeAll ==> arg1 > old(wroteSoFar))
 //@   remember after call file).Write: moved = result1 == nil
+//@   remember after call file).Write: kn := result0
+//@   // the count is exactly what was moved before plus what the kernel moved now - in the callback
+//@   // and in the progress recorded for the continuation (a prefix sent twice, or bytes skipped, otherwise)
+//@   assert call cb: [C02,C19 exact-count] arg1 == old(wroteSoFar) + kn
 //@   // success is reported only if the transfer attempted now succeeded
 //@   assert call cb: [C02,C19 no-swallowed-error] arg0 == nil ==> moved
 //@   remember after call file).Write: failed = result1 != nil && result1 != sonicerrors.ErrWouldBlock
@@ -185,6 +192,7 @@ package sonic
 //@   // a continuation is armed only while bytes remain: a WriteAll that has moved everything is
 //@   // reported done now, not after waiting for writability to write nothing (which reads as EOF)
 //@   ensures [C02,C19 work-left] invoked(cb) == 0 && old(wroteSoFar) < len(b) ==> f.writeReactor.wroteSoFar < len(b)
+//@   ensures [C02,C19 progress-recorded] invoked(cb) == 0 ==> f.writeReactor.wroteSoFar == old(wroteSoFar) + kn
 //@   ensures [C02,C19 errors-reported] failed ==> invoked(cb) == 1
 //@   ensures [depth] f.ioc.Dispatched == old(f.ioc.Dispatched)
 
